@@ -32,6 +32,9 @@ type T struct {
 }
 
 func (t T) String() string {
+	if t.K == 4 {
+		return "279/v4242(opaque)"
+	}
 	if t.K < 2 {
 		return fmt.Sprint(c20Codes[t.K])
 	}
@@ -56,6 +59,9 @@ func c20Build(t T) *diam.AVP {
 		return diam.NewAVP(264, 0x40, 0, datatype.DiameterIdentity("h"))
 	case 1:
 		return diam.NewAVP(268, 0x40, 0, datatype.Unsigned32(2001))
+	case 4:
+		// the code of a Grouped AVP in another vendor's name space: carried as opaque data, not a group
+		return diam.NewAVP(279, 0xC0, 4242, datatype.Unknown("opaque"))
 	}
 	g := &diam.GroupedAVP{}
 	for _, k := range t.Kids {
@@ -160,77 +166,127 @@ func c20Eval(cs C20Case) (res string, queries int) {
 	for _, t := range cs.Tree {
 		m.AddAVP(c20Build(t))
 	}
-	type q struct {
-		key  interface{}
-		code uint32
-		desc string
-	}
-	var qs []q
-	for i, c := range c20Codes {
-		qs = append(qs, q{c, c, fmt.Sprint(c)}, q{int(c), c, fmt.Sprintf("int(%d)", c)}, q{c20Names[i], c, c20Names[i]})
-	}
-	if cs.Priv {
-		// the default dictionary's names denote other codes here, none of them in the tree
-		for _, n := range []string{"Origin-Host", "Result-Code", "Failed-AVP", "Proxy-Info", "Only-Private"} {
-			qs = append(qs, q{n, 9999, "name of an absent code in the private dictionary: " + n})
+	pass := func() (string, int) {
+		queries := 0
+		type q struct {
+			key  interface{}
+			code uint32
+			desc string
 		}
-	}
-	qs = append(qs, q{uint32(c20AbsentCode), c20AbsentCode, "absent 263"}, q{c20AbsentName, c20AbsentCode, "absent Session-Id"}, q{uint32(c20UndefCode), c20UndefCode, "undefined 60001"}, q{"No-Such-AVP", 0, "undefined name"})
-	for _, x := range qs {
-		var want []*diam.AVP
-		if x.code != 0 {
-			refAll(m.AVP, x.code, &want)
+		var qs []q
+		for i, c := range c20Codes {
+			qs = append(qs, q{c, c, fmt.Sprint(c)}, q{int(c), c, fmt.Sprintf("int(%d)", c)}, q{c20Names[i], c, c20Names[i]})
 		}
-		queries += 2
-		got, err := m.FindAVPs(x.key, 0)
-		if len(want) == 0 {
-			if err == nil && len(got) != 0 {
-				return fmt.Sprintf("FindAVPs(%s): %d AVPs returned for a code absent from the message", x.desc, len(got)), queries
-			}
-		} else if err != nil || !samePtrs(got, want) {
-			return fmt.Sprintf("FindAVPs(%s): got %d AVPs (err %v), the pre-order walk finds %d - or in another order", x.desc, len(got), err, len(want)), queries
-		}
-		one, err := m.FindAVP(x.key, 0)
-		if len(want) == 0 {
-			if err == nil && one != nil {
-				return fmt.Sprintf("FindAVP(%s): returned an AVP (code %d) although the code is absent from the message", x.desc, one.Code), queries
-			}
-		} else if err != nil || one != want[0] {
-			return fmt.Sprintf("FindAVP(%s): did not return the first AVP in depth-first document order (err %v)", x.desc, err), queries
-		}
-	}
-	// paths of length <= 3 over the alphabet + the absent code, by number and by name
-	alpha := append(append([]uint32{}, c20Codes...), c20AbsentCode)
-	names := append(append([]string{}, c20Names...), c20AbsentName)
-	var paths [][]int
-	for a := range alpha {
-		paths = append(paths, []int{a})
-		for b := range alpha {
-			paths = append(paths, []int{a, b})
-			for c := range alpha {
-				paths = append(paths, []int{a, b, c})
+		if cs.Priv {
+			// the default dictionary's names denote other codes here, none of them in the tree
+			for _, n := range []string{"Origin-Host", "Result-Code", "Failed-AVP", "Proxy-Info", "Only-Private"} {
+				qs = append(qs, q{n, 9999, "name of an absent code in the private dictionary: " + n})
 			}
 		}
-	}
-	for pi, p := range paths {
-		var codes []uint32
-		var keys []interface{}
-		for j, x := range p {
-			codes = append(codes, alpha[x])
-			if (pi+j)%2 == 0 {
-				keys = append(keys, alpha[x])
-			} else {
-				keys = append(keys, names[x])
+		qs = append(qs, q{uint32(c20AbsentCode), c20AbsentCode, "absent 263"}, q{c20AbsentName, c20AbsentCode, "absent Session-Id"}, q{uint32(c20UndefCode), c20UndefCode, "undefined 60001"}, q{"No-Such-AVP", 0, "undefined name"})
+		for _, x := range qs {
+			var want []*diam.AVP
+			if x.code != 0 {
+				refAll(m.AVP, x.code, &want)
+			}
+			queries += 2
+			got, err := m.FindAVPs(x.key, 0)
+			if len(want) == 0 {
+				if err == nil && len(got) != 0 {
+					return fmt.Sprintf("FindAVPs(%s): %d AVPs returned for a code absent from the message", x.desc, len(got)), queries
+				}
+			} else if err != nil || !samePtrs(got, want) {
+				return fmt.Sprintf("FindAVPs(%s): got %d AVPs (err %v), the pre-order walk finds %d - or in another order", x.desc, len(got), err, len(want)), queries
+			}
+			one, err := m.FindAVP(x.key, 0)
+			if len(want) == 0 {
+				if err == nil && one != nil {
+					return fmt.Sprintf("FindAVP(%s): returned an AVP (code %d) although the code is absent from the message", x.desc, one.Code), queries
+				}
+			} else if err != nil || one != want[0] {
+				return fmt.Sprintf("FindAVP(%s): did not return the first AVP in depth-first document order (err %v)", x.desc, err), queries
 			}
 		}
-		want := refPath(m.AVP, codes)
-		queries++
-		got, err := m.FindAVPsWithPath(keys, 0)
-		if err != nil {
-			return fmt.Sprintf("FindAVPsWithPath(%v): error %v", keys, err), queries
+		// paths of length <= 3 over the alphabet + the absent code, by number and by name
+		alpha := append(append([]uint32{}, c20Codes...), c20AbsentCode)
+		names := append(append([]string{}, c20Names...), c20AbsentName)
+		var paths [][]int
+		for a := range alpha {
+			paths = append(paths, []int{a})
+			for b := range alpha {
+				paths = append(paths, []int{a, b})
+				for c := range alpha {
+					paths = append(paths, []int{a, b, c})
+				}
+			}
 		}
-		if !samePtrs(got, want) {
-			return fmt.Sprintf("FindAVPsWithPath(%v): %d AVPs, the strict per-level walk finds %d (or other AVPs / order)", keys, len(got), len(want)), queries
+		for pi, p := range paths {
+			var codes []uint32
+			var keys []interface{}
+			for j, x := range p {
+				codes = append(codes, alpha[x])
+				if (pi+j)%2 == 0 {
+					keys = append(keys, alpha[x])
+				} else {
+					keys = append(keys, names[x])
+				}
+			}
+			want := refPath(m.AVP, codes)
+			queries++
+			got, err := m.FindAVPsWithPath(keys, 0)
+			if err != nil {
+				return fmt.Sprintf("FindAVPsWithPath(%v): error %v", keys, err), queries
+			}
+			if !samePtrs(got, want) {
+				return fmt.Sprintf("FindAVPsWithPath(%v): %d AVPs, the strict per-level walk finds %d (or other AVPs / order)", keys, len(got), len(want)), queries
+			}
+		}
+		return "", queries
+	}
+	res, queries = pass()
+	if res != "" || len(m.AVP) == 0 {
+		return res, queries
+	}
+	// search - edit - search: the message is edited in ways that do not go through Message.AddAVP /
+	// InsertAVP (a member added to the first group, the first top-level AVP cut out of the
+	// exported slice, the AVPs replaced by Marshal) and every query is asked again
+	edits := []struct {
+		name string
+		do   func() bool
+	}{
+		{"a member (Result-Code) added to the first group with GroupedAVP.AddAVP", func() bool {
+			for _, a := range m.AVP {
+				if g, ok := a.Data.(*diam.GroupedAVP); ok {
+					g.AddAVP(diam.NewAVP(268, 0x40, 0, datatype.Unsigned32(7)))
+					return true
+				}
+			}
+			return false
+		}},
+		{"the first top-level AVP removed from Message.AVP", func() bool {
+			m.AVP = m.AVP[1:]
+			return true
+		}},
+		{"the AVPs replaced by Marshal", func() bool {
+			var src interface{} = &struct {
+				H string `avp:"Origin-Host"`
+			}{"new.example"}
+			if cs.Priv {
+				src = &struct {
+					H string `avp:"Priv-Host"`
+				}{"new.example"}
+			}
+			return m.Marshal(src) == nil
+		}},
+	}
+	for _, e := range edits {
+		if !e.do() {
+			continue
+		}
+		r, n := pass()
+		queries += n
+		if r != "" {
+			return "after " + e.name + ": " + r, queries
 		}
 	}
 	return "", queries
@@ -254,7 +310,7 @@ func c20Enum(ctx *ev.Ctx, fn func(C20Case)) string {
 		}
 		return out
 	}
-	level := []T{{K: 0}, {K: 1}} // depth-0 nodes: leaves
+	level := []T{{K: 0}, {K: 1}, {K: 4}} // depth-0 nodes: leaves (K 4: a leaf that carries the code of a Grouped AVP)
 	var levels [][]T
 	levels = append(levels, level)
 	for d := 1; d <= 2; d++ {
@@ -263,7 +319,7 @@ func c20Enum(ctx *ev.Ctx, fn func(C20Case)) string {
 			w = 2
 		}
 		var next []T
-		next = append(next, T{K: 0}, T{K: 1})
+		next = append(next, T{K: 0}, T{K: 1}, T{K: 4})
 		for _, s := range seqs(levels[d-1], w) {
 			next = append(next, T{K: 2, Kids: s}, T{K: 3, Kids: s})
 		}
@@ -295,7 +351,7 @@ func c20Enum(ctx *ev.Ctx, fn func(C20Case)) string {
 			}
 		}
 	}
-	return "all AVP trees over two leaf codes and two grouped codes: every single node of nesting depth <=3 with inner width <=3 (outermost group: <=2 children quick, <=3 thorough), alone and next to a leaf in both orders; every ordered pair (and a family of triples) of depth-<=2 nodes; empty groups, repeated codes at several depths, groups in groups. Per tree: FindAVP and FindAVPs by uint32, int and name for every code of the alphabet, a defined but absent code, an undefined code and an undefined name; FindAVPsWithPath for every path of length <=3 over the alphabet plus the absent code, alternating number and name per step. Every tree is searched twice: in a message carrying dict.Default and in one carrying a private dictionary that names the four codes differently and attaches the default names to codes absent from the tree (a name must resolve through the message's own dictionary). Results are compared by pointer identity with a pre-order reference walk / strict per-level match."
+	return "all AVP trees over two leaf codes, two grouped codes and one leaf that carries the code of a Grouped AVP under a foreign vendor id (opaque data, not a group): every single node of nesting depth <=3 with inner width <=3 (outermost group: <=2 children quick, <=3 thorough), alone and next to a leaf in both orders; every ordered pair (and a family of triples) of depth-<=2 nodes; empty groups, repeated codes at several depths, groups in groups. Per tree: FindAVP and FindAVPs by uint32, int and name for every code of the alphabet, a defined but absent code, an undefined code and an undefined name; FindAVPsWithPath for every path of length <=3 over the alphabet plus the absent code, alternating number and name per step. Every tree is searched twice: in a message carrying dict.Default and in one carrying a private dictionary that names the four codes differently and attaches the default names to codes absent from the tree (a name must resolve through the message's own dictionary). After the first round of queries each message is edited without going through Message.AddAVP / InsertAVP (a member added to its first group, its first top-level AVP cut out of the exported slice, its AVPs replaced by Marshal) and every query is asked again. Results are compared by pointer identity with a pre-order reference walk / strict per-level match."
 }
 
 func runC20(ctx *ev.Ctx) {
